@@ -223,11 +223,16 @@ def run_property(pid, tier):
             solver_s += o["time"]
             by_name.setdefault(o["name"], []).append(o)
     # ---- static frame obligations (C19): discharged syntactically on the ASTs of the working tree
-    if reg.get("static") == "frames":
+    if reg.get("static") == "frames" or reg.get("frames"):
         from pyvc.frontend import Program
         from pyvc import frames
         t1 = time.time()
+        # reg["frames"] = {"rules": [...], "modules": [...]} restricts the rules to the modules a property is anchored in
+        # (the "no memory between calls" frame of a codec / parser: rule F1 on its modules)
+        sel = reg.get("frames")
         for fo in frames.analyse(Program(os.environ.get("SANSLDAP_SRC"))):
+            if sel and not (fo["rule"] in sel["rules"] and fo["where"].split(":")[0] in sel["modules"]):
+                continue
             o = {"name": fo["name"], "kind": "frame-static", "status": fo["status"], "time": 0.0, "backend": "syntactic frame analysis (pyvc.frames)",
                  "lineno": 0, "clause": fo["rule"] + (": " + fo["detail"] if fo["detail"] else ""), "function": fo["where"], "model": None}
             instances.append(o)
